@@ -375,6 +375,41 @@ class World:
                 raise KeyError(qualname)
         return cur
 
+    def reach(self, names):
+        """names of repo functions executed (transitively, by name) when the given functions run"""
+        if not hasattr(self, "_defs"):
+            self._defs = {}
+            for m in self.modules.values():
+                for n in ast.walk(m.tree):
+                    if isinstance(n, ast.FunctionDef):
+                        self._defs.setdefault(n.name, []).append(n)
+        seen, todo = set(), list(names)
+        while todo:
+            x = todo.pop()
+            if x in seen or x not in self._defs:
+                continue
+            seen.add(x)
+            for node in self._defs[x]:
+                for c in ast.walk(node):
+                    if isinstance(c, ast.Call):
+                        f = c.func
+                        nm = f.id if isinstance(f, ast.Name) else (f.attr if isinstance(f, ast.Attribute) else None)
+                        if nm and nm not in seen:
+                            todo.append(nm)
+                    elif isinstance(c, ast.Attribute) and c.attr in self._defs and c.attr not in seen:
+                        todo.append(c.attr)
+        return sorted(seen)
+
+    def dropped_statements(self, names):
+        """logger.* statements (dropped by the extraction, A-log) inside the given functions"""
+        n = 0
+        for x in names:
+            for node in getattr(self, "_defs", {}).get(x, []):
+                for c in ast.walk(node):
+                    if isinstance(c, ast.Expr) and self.is_logger_call(c.value):
+                        n += 1
+        return n
+
     def source_of(self, f):
         seg = ast.get_source_segment(f.module.src, f.node)
         return seg or ""
